@@ -52,6 +52,8 @@ theorem stepS_ctm_ne_nil (r : Res) (s : SState) (c : Call) (s' : SState) (r' : R
     have : s' = (setAlpha r s α stroke fill).1 := by rw [h]
     subst this; rw [setAlpha_ctm]; exact hne
   | setState d => simp only [stepS, setState] at h; simp at h; obtain ⟨rfl, rfl⟩ := h; simpa [SState.emit] using hne
+  | softMaskState =>
+    simp only [stepS, softMaskState, setState] at h; simp at h; obtain ⟨rfl, rfl⟩ := h; simpa [SState.emit] using hne
   | setBlendMode mode =>
     simp only [stepS, setState] at h; simp at h; obtain ⟨rfl, rfl⟩ := h; simpa [SState.emit] using hne
   | beginMarked et mcid tag =>
